@@ -773,13 +773,6 @@ protected:
 
             ++i;
         }
-
-        if(outsideCDATA == true)
-        {
-            m_writer.write(
-                m_constants.s_cdataOpenString,
-                m_constants.s_cdataOpenStringLength);
-        }
     }
 
 
